@@ -1,4 +1,5 @@
 import Netpol.Properties.C08.Engine
+import Netpol.Properties.C08.Format
 /-! C08 — output is deterministic and independent of the order of the input.
 
 The property is split along the pipeline:
